@@ -323,12 +323,12 @@ def target (m : List (Id × Id)) (ids : List Id) : List Id := ids.map fun i => (
 
 /-- cells and metadata follow the relabelling: what `old` had, `new` has -/
 def relabelled (t r : Table α) (ax : Axis) (pairs : List (Id × Id)) : Bool :=
-  (pairs.all fun (old, new) => decide (mdE r ax new = mdE t ax old)) &&
+  (pairs.all fun p => decide (mdE r ax p.2 = mdE t ax p.1)) &&
   match ax with
-  | .obs => pairs.all fun (old, new) => t.samp.all fun s =>
-      (r.cell? new s).isSome && decide (r.cell? new s = t.cell? old s)
-  | .samp => pairs.all fun (old, new) => t.obs.all fun ob =>
-      (r.cell? ob new).isSome && decide (r.cell? ob new = t.cell? ob old)
+  | .obs => pairs.all fun p => t.samp.all fun s =>
+      (r.cell? p.2 s).isSome && decide (r.cell? p.2 s = t.cell? p.1 s)
+  | .samp => pairs.all fun p => t.obs.all fun ob =>
+      (r.cell? ob p.2).isSome && decide (r.cell? ob p.2 = t.cell? ob p.1)
 
 /-- `update_ids(id_map, axis, strict, inplace)` -/
 def updateIdsClauses (t : Table α) (m : List (Id × Id)) (ax : Axis) (strict inplace : Bool) (o : Out α) : Clauses :=
